@@ -48,7 +48,15 @@ func init() {
 	reg("R-ERRPOLICY", "For each replayed op code whose mutator can return an error: if the commit-time applier discards that error, the open-time applier must not use it (it would make Open fail on a directory produced by successful calls).", ruleErrPolicy)
 	reg("R-OPCODEC", "No []byte payload handed to a mutator by an applier is an element of an unbounded strings.Split over stored bytes; every API that creates a key which is later split rejects keys containing the separator before logging.", ruleOpCodec)
 	reg("R-MERGE-CLASSIFY", "Every emitted (ds, Flag) code is classified by Merge: under the valuation (ds, Flag) either a filter function can only return true (dead) or an append to the rewrite set is reachable in a keeper function (live if present).", ruleMergeClassify)
-	reg("R-RO-IO", "The file-system half of R-RO: no exported read API of Tx reaches a file-creating or modifying primitive other than opening an existing segment through NewDataFile(getDataPath(id)).", ruleROIO)
+	reg("R-ATOMIC", "In Tx.Commit no event that publishes reader-visible index state (a call reaching a B+ tree or data-structure mutator, or an update of DB.committedTxIds) is followed on any feasible path by a return of a non-nil error; one obligation per (publishing event, error exit) pair; events of the last iteration (index == len-1) cannot be followed by another iteration.", ruleAtomic)
+	reg("R-MERGE-ORDER", "In DB.Merge every os.Remove of a segment is dominated by the nil result of the rewrite step and removes the path that was scanned; the rewrite step returns its transaction's Commit error; rewritten records go to segment MaxFileID+k, k>=1.", ruleMergeOrder)
+	reg("R-MERGE-COMMITTED", "Every call in Merge that can add the scanned entry to the rewrite set is dominated (bool-flag pruner applied) by membership of the entry's txID in DB.committedTxIds.", ruleMergeCommitted)
+	reg("R-MERGE-IDEMP", "Commit-time appliers of non-idempotent mutators (List.LPush/RPush) are guarded by !DB.isMerging somewhere in their call context: the merge rewrite must not re-apply records that are already in the in-memory index.", ruleMergeIdemp)
+	reg("R-BUCKETKEY", "Every lookup/update of DB.{BPTreeIdx,SetIdx,SortedSetIdx,ListIdx} is keyed by the function's own bucket parameter or (commit/open/merge cones) by the record's own bucket; in two-bucket methods each bucket parameter keys a lookup and each looked-up structure is addressed only with the key parameter of the same position.", ruleBucketKey)
+	reg("R-COMPOSITE", "A byte key built from bucket and key must be injective: plain concatenation with no length prefix or separator is flagged.", ruleComposite)
+	reg("R-FLAGUSE", "Every use of Options.SyncEnable is an If condition whose exclusively controlled region only syncs (or is passed to a parameter with that property); every comparison of an RWMode value either selects the RWManager implementation or guards a sync-only region.", ruleFlagUse)
+	reg("R-RWPARITY", "Both RWManager constructors open the file with the same os.OpenFile arguments and size it with the same Truncate call; the interface has four methods.", ruleRWParity)
+	reg("R-RO-IO","The file-system half of R-RO: no exported read API of Tx reaches a file-creating or modifying primitive other than opening an existing segment through NewDataFile(getDataPath(id)).", ruleROIO)
 }
 
 var properties = []Property{
